@@ -26,7 +26,8 @@
     (`C15_key_permutation_spec_counterexample`);
   * `!unsafe` / `!new` markers — PARTIAL (`C15_flag_neutral_ops_partial`): `eraseSN` (forget
     `safe` / `allow_new` everywhere) preserves the data and commutes with every flag combination,
-    the leaf rule and every priority / `delete` test of the merge; the commutation with `mergeF`
+    the leaf rule (winner, flags and data of the surviving node; the node itself when it is a leaf)
+    and every priority / `delete` test of the merge; the commutation with `mergeF`
     on whole trees is NOT proved (see the comment at the theorem).
   Proofs: AY/Lemmas/{C15Empty,C15Spec,C15Perm,C15Flag,C15EmptyDS}.lean.
 -/
@@ -87,13 +88,14 @@ example : ∃ r, c15Flatten [(({} : Env), c02Doc1), ({}, c02Doc2)] = r := ⟨_, 
    the flags of the root combined by the tail of `on_merge_impl` (`finishMerge`):
    `_replace_self` (priority and `delete` of the root are overwritten by those of `e`, i.e. reset,
    metadata and safety combined, inherited flags re-propagated into the children) when `e` has
-   priority over `a` or the same priority, `_replace_other` (only safety / metadata) when `a` has
-   the strictly higher priority.  The data, and the data and order of the children, are unchanged. -/
+   priority over `a` or the same priority, `_replace_other` (only safety / metadata, re-propagated
+   likewise) when `a` has the strictly higher priority.  The data, and the data and order of the
+   children, are unchanged. -/
 theorem C15_empty_neutral_right (fuel : Nat) (sf : Flags) (sk : CompKind) (scs : List (Key × Node))
     (ef : Flags) (hk : sk.isDictFam = true) (he : bareW ef = true) :
     mergeF (fuel + 1) (.comp sf sk scs) (.comp ef .dict []) =
       .ok ((if hasPrio ef sf true then propagate (.comp (replaceSelfFlags sf ef) sk scs)
-            else .comp (replaceOtherFlags sf ef) sk scs), true)
+            else propagate (.comp (replaceOtherFlags sf ef) sk scs)), true)
     ∧ (∀ r s, mergeF (fuel + 1) (.comp sf sk scs) (.comp ef .dict []) = .ok (r, s) →
         native r = native (.comp sf sk scs) ∧ nativeList r.children = nativeList scs ∧
         (merge (.comp sf sk scs) (.comp ef .dict [])).map native = .ok (native (.comp sf sk scs))) := by
@@ -124,10 +126,10 @@ theorem C15_empty_neutral_left (fuel : Nat) (ef bf : Flags) (bcs : List (Key × 
     (hnd : keysNodup bcs = true) (hnew : allNewList bcs = true) :
     mergeF (fuel + 1) (.comp ef .dict []) (.comp bf .dict bcs) =
       .ok (if eDel (.comp bf .dict bcs) && hasPrio bf ef true then
-             (.comp (replaceOtherFlags bf ef) .dict bcs, false)
+             (propagate (.comp (replaceOtherFlags bf ef) .dict bcs), false)
            else if hasPrio bf ef true then
              (propagate (.comp (replaceSelfFlags ef bf) .dict (adoptList ef bcs)), true)
-           else (.comp (replaceOtherFlags ef bf) .dict (adoptList ef bcs), true))
+           else (propagate (.comp (replaceOtherFlags ef bf) .dict (adoptList ef bcs)), true))
     ∧ (∀ r s, mergeF (fuel + 1) (.comp ef .dict []) (.comp bf .dict bcs) = .ok (r, s) →
         native r = native (.comp bf .dict bcs))
     ∧ (allNewList bcs = true ↔ reqNewList [] [] bcs = none) := by
@@ -339,8 +341,10 @@ theorem C15_key_permutation_spec_counterexample :
    the building blocks.  `eraseSN` forgets `safe`, `allow_new` and everything inherited from them
    on every node.  It never changes the data; priorities, `delete`, truthiness and the class of a
    node do not depend on the erased flags; it commutes with both flag combinations of the merge
-   (`_replace_self`, `_replace_other`), with the leaf rule (same winner), with the lookup of the
-   deepest existing node, and therefore leaves both pruning conditions (`maybe_keep`,
+   (`_replace_self`, `_replace_other`), with the leaf rule (same winner, same flags of the surviving
+   node, same data; the surviving node itself when it is a leaf — below a surviving container
+   `_replace_other` re-propagates the inherited flags, see the obstacle below and the
+   counterexample after the theorem), with the lookup of the deepest existing node, and therefore leaves both pruning conditions (`maybe_keep`,
    `keep_if_exists`) and the inherited `delete` handed to children unchanged; on erased trees
    `_require_all_new` never fires (the only place `allow_new` is consulted) and `safe` is only
    combined in `mergeSafe`.  NOT proved: the commutation `mergeF (eraseSN a) (eraseSN b) ~
@@ -356,19 +360,41 @@ theorem C15_flag_neutral_ops_partial (a b : Node) (s o : Flags) (p : Path) :
     (eDel (eraseSN a) = eDel a ∧ (eraseSN a).truthy = a.truthy ∧ (eraseSN a).isComp = a.isComp) ∧
     eraseF (replaceSelfFlags s o) = replaceSelfFlags (eraseF s) (eraseF o) ∧
     eraseF (replaceOtherFlags s o) = replaceOtherFlags (eraseF s) (eraseF o) ∧
-    leafRule (eraseSN a) (eraseSN b) = (eraseSN (leafRule a b).1, (leafRule a b).2) ∧
+    ((leafRule (eraseSN a) (eraseSN b)).2 = (leafRule a b).2 ∧
+      (leafRule (eraseSN a) (eraseSN b)).1.flags = eraseF (leafRule a b).1.flags ∧
+      native (leafRule (eraseSN a) (eraseSN b)).1 = native (leafRule a b).1 ∧
+      ((leafRule a b).1.isComp = false →
+        leafRule (eraseSN a) (eraseSN b) = (eraseSN (leafRule a b).1, (leafRule a b).2))) ∧
     firstNotMissing (eraseSN a) p = eraseSN (firstNotMissing a p) ∧
     maybeKeep (eraseSN a) p (eraseSN b) = maybeKeep a p b ∧
     keepIfExists (eraseSN a) p (eraseSN b) = keepIfExists a p b ∧
     (∀ k, (childKw (eraseF s) k).map (·.iDel) = (childKw s k).map (·.iDel)) ∧
     (∀ exc q, reqNew exc q (eraseSN a) = none) := by
   refine ⟨native_eraseSN a, ⟨rfl, fun _ => rfl⟩, ⟨eDel_eraseSN a, truthy_eraseSN a, isComp_eraseSN a⟩,
-    eraseF_replaceSelfFlags s o, eraseF_replaceOtherFlags s o, leafRule_eraseSN a b,
+    eraseF_replaceSelfFlags s o, eraseF_replaceOtherFlags s o,
+    ⟨(leafRule_eraseSN_root a b).1, (leafRule_eraseSN_root a b).2.1, (leafRule_eraseSN_root a b).2.2,
+      leafRule_eraseSN a b⟩,
     firstNotMissing_eraseSN p a, maybeKeep_eraseSN a p b, keepIfExists_eraseSN a p b, ?_,
     fun exc q => reqNew_allNew exc q _ (allNew_eraseSN a)⟩
   intro k
   rw [childKw_eraseF]
   cases childKw s k <;> rfl
+
+/-- `!force !notnew {x: {y: 1}}` as a node tree whose inherited flags were never handed down
+    (`y` still carries an `implicit_delete` of its own) -/
+def c15G : Node :=
+  .comp { prio := some 1, new := some false } .dict
+    [(.str "x", .comp {} .dict [(.str "y", .leaf { iDel := some true } (.scalar (.int 1)))])]
+/- the unrestricted commutation `leafRule (eraseSN a) (eraseSN b) = (eraseSN (leafRule a b).1, _)`
+   (true before `_replace_other` re-propagated the inherited flags) FAILS for a surviving container:
+   with `!notnew` present the re-propagation descends into `x` (its `implicit_allow_new` changes) and
+   resets the `implicit_delete` of `y`; with the flag erased nothing changes at `x`, the descent
+   stops and `y` keeps its `implicit_delete` — the obstacle described above, now inside the leaf rule -/
+example : (leafRule c15G (.leaf {} (.scalar (.int 2)))).2 = true ∧
+    (getNode (leafRule (eraseSN c15G) (eraseSN (.leaf {} (.scalar (.int 2))))).1
+      [.str "x", .str "y"]).map (·.flags.iDel) = some (some true) ∧
+    (getNode (eraseSN (leafRule c15G (.leaf {} (.scalar (.int 2)))).1)
+      [.str "x", .str "y"]).map (·.flags.iDel) = some none := by decide
 
 /-- `!unsafe {x: !new 1}` as a node tree -/
 def c15F : Node :=
@@ -376,5 +402,7 @@ def c15F : Node :=
     [(.str "x", .leaf { new := some true, iSafe := some false, prio := some 1 } (.scalar (.int 1)))]
 example : (eraseSN c15F).flags.safe = none ∧ eSafe c15F.flags = false ∧ eSafe (eraseSN c15F).flags = true := by
   decide
+-- the leaf case of the leaf-rule clause is inhabited: the newer scalar survives
+example : (leafRule c15F (.leaf {} (.scalar (.int 2)))).1.isComp = false := by decide
 
 end AY
